@@ -101,7 +101,10 @@ example : Shade.compute 0 ⟨102, 170, 119⟩ (none : PR) = Res.ok (Except.error
 /-- parsing any text as a hex colour returns a value or an error (`Rgb.try_from_Hex` is `Except`-valued and
 pure: no panic) -/
 theorem hex_parse_total (s : Str) :
-    (∃ c, Rgb.try_from_Hex ⟨s⟩ = .ok c) ∨ (∃ e, Rgb.try_from_Hex ⟨s⟩ = .error e) := Props.C15.parse_total s
+    (∃ c, Rgb.try_from_Hex ⟨s⟩ = .ok c) ∨ (∃ e, Rgb.try_from_Hex ⟨s⟩ = .error e) := by
+  cases h : Rgb.try_from_Hex ⟨s⟩ with
+  | ok c => exact .inl ⟨c, rfl⟩
+  | error e => exact .inr ⟨e, rfl⟩
 
 /-! ## 2a. Conversions taking the colour directly -/
 
@@ -390,7 +393,7 @@ Property text → theorem (all on `PR`; "finite" = `Finite (X.as_vec …)`):
   `forward_finite` instantiate them.  Black is where the guards matter (`min == max`, `0 < max`, `k != 1`,
   `is_null`, `y == 0`, `x == 0 && y == 0 && z == 0`, `divider == 0`).
 * "Every one of the 256 ANSI codes converts to a colour" — `ansi_decode_total` (= `Props.C16.ansi_total`).
-* "parsing any text as a hex colour … returns a value or an error" — `hex_parse_total` (= `Props.C15.parse_total`).
+* "parsing any text as a hex colour … returns a value or an error" — `hex_parse_total` (about the generated `Gen.Rgb.try_from_Hex`; which of the two: `Props.C15_bridge.parse_spec`).
 * "building any colour from a vector of any length … never panics" — every `X.from_vec` is a pure total
   function of the model (not `Res`-valued); its value on every length is `Props.C19.*.from_vec_*`.
 * NaN clause of C18 — `shade_rejects`, `tint_rejects`.
